@@ -240,6 +240,21 @@ def plant_container_level(doc, dia, r):
                 if dia == 2:            # (in CIF 1.1 every unit above U+007E is first of all a disallowed character)
                     yield ("invalid_char/" + tag, with_elems(doc, path, elems[:k] + [("item", e[1], ("rawv", "'a\ud800b'"))] + elems[k + 1:]),
                            with_elems(doc, path, elems[:k] + [("item", e[1], S("a�b", "sq"))] + elems[k + 1:]), 102, {}, None)
+                if dia == 2:
+                    # an unpaired lead surrogate inside a DATA NAME: replaced (the item is stored under the repaired name)
+                    yield ("invalid_char_name/" + tag, with_elems(doc, path, elems[:k] + [("item", ("mark", "_zq\ud800" + "w%d" % k), S("1"))] + elems[k:]),
+                           with_elems(doc, path, elems[:k] + [("item", "_zq\ufffd" + "w%d" % k, S("1"))] + elems[k:]), 102, {}, None)
+                    # SEVERAL defective places in one token: each reported, in order, with its own code
+                    yield ("multi_in_token/" + tag, with_elems(doc, path, elems[:k] + [("item", e[1], ("rawv", "'a\x01b\udc00c\ud800d'"))] + elems[k + 1:]),
+                           with_elems(doc, path, elems[:k] + [("item", e[1], S("a\x01b\ufffdc\ufffdd", "sq"))] + elems[k + 1:]), 104,
+                           {"codes": [104, 102, 102]}, None)
+                # a defective unit inside a COMMENT: reported, the comment is skipped as usual
+                cbad = "\x01" if dia == 2 else "\x7f"
+                yield ("defect_in_comment/" + tag, with_elems(doc, path, elems[:k] + [("raw", "#c" + cbad + "d", True)] + elems[k:]), doc, 104,
+                       {"codes": [104] if dia == 2 else [104, 104], "lines_only": True}, None)
+                if dia == 2:
+                    yield ("defects_in_comment/" + tag, with_elems(doc, path, elems[:k] + [("raw", "#c\x01d\udc00e\ud800f", True)] + elems[k:]), doc, 104,
+                           {"codes": [104, 102, 102], "lines_only": True}, None)
                 # over-length line: accepted as it is (2049 characters)
                 long_ = "x" * (2049 - 1)
                 yield ("overlength/" + tag, with_elems(doc, path, elems[:k] + [("item", e[1], ("rawv", "\n#" + long_ + "\nv"))] + elems[k + 1:]),
@@ -638,6 +653,10 @@ def case_request(label, planted, result, code, opts, alt, dia, r, style="lines",
         hi = spans[nxt][4] if nxt < len(spans) and not opts.get("hi_eof") else last_line
         if opts.get("mark_after"):
             lo = spans[mi][3]
+    if opts.get("codes"):
+        # every report of the planted token, in order (each place of a token with several defects is reported once)
+        note = ["M", label, ",".join(str(c) for c in opts["codes"]), str(lo), str(hi), "X"] + expected_dump(result, dia).split(" ")[1:]
+        return make_request("parse", text, dia=dia, mfd=opts.get("mfd", mfd), note=note)
     note = ["D", label, str(code), str(lo), str(hi), "X"] + expected_dump(result, dia).split(" ")[1:]
     if alt is not None:
         note += ["ALT"] + expected_dump(alt, dia).split(" ")[1:]
@@ -675,6 +694,8 @@ def oracle(req, impl):
         return oracle_pair(d, impl)
     if d["note"] and d["note"][0] == "DIE":
         return oracle_die(d, impl)
+    if d["note"] and d["note"][0] == "M":
+        return oracle_multi(d, impl)
     if "D" not in d["note"]:
         return pd.oracle(req, impl)
     o = split_impl(impl)
@@ -730,6 +751,30 @@ def oracle_pair(d, impl):
     return pd.post_ok(o)
 
 
+def oracle_multi(d, impl):
+    """one token with several defective places (or a comment with some): every place is reported once, with its class's code, in
+    order of occurrence, on the lines of the token; nothing else is reported; the content is that of all documented recoveries"""
+    o = split_impl(impl)
+    if o is None:
+        return None if impl.startswith(("SAN:", "CRASH:", "TIMEOUT")) else "unreadable observation: " + impl[:80]
+    n = d["note"]
+    label, want, lo, hi = n[1], [int(x) for x in n[2].split(",")], int(n[3]), int(n[4])
+    expected = " " + " ".join(n[n.index("X") + 1:])
+    codes = [c for c, _ in o["log"]]
+    if codes != want:
+        return "%s: callbacks %s, the defective places of the token have the documented codes %s" % (label, codes, want)
+    for c, l in o["log"]:
+        if not (lo <= l <= hi):
+            return "%s: callback %d at line %d, the token spans lines %d-%d" % (label, c, l, lo, hi)
+    if o["rc"] != 0:
+        return "%s: every error was accepted but cif_parse returned %d" % (label, o["rc"])
+    if o["ptr"] != "ok":
+        return "callback text pointer outside the scan buffer"
+    if pd.store_units(o["cif"].rstrip()) != pd.store_units(expected.rstrip()):
+        return "%s: content after recovery is not what the documented recovery actions prescribe" % label
+    return pd.post_ok(o)
+
+
 def oracle_die(d, impl):
     """abort-on-error handler: the parse returns the code of the class, exactly one callback was made (with that code, on a line
     of the defect), and what the CIF holds is what stands in front of the defect — nothing behind it has been stored"""
@@ -753,7 +798,7 @@ def oracle_die(d, impl):
 
 
 def nontrivial(req, impl):
-    return " D " in req or " | L " in req or " | P " in req or " | DIE " in req
+    return " D " in req or " | L " in req or " | P " in req or " | DIE " in req or " | M " in req
 
 
 def classify(req, impl):
@@ -764,6 +809,8 @@ def classify(req, impl):
         return "pair"
     if d["note"] and d["note"][0] == "DIE":
         return "die:" + d["note"][1].split("/")[0]
+    if d["note"] and d["note"][0] == "M":
+        return d["note"][1].split("/")[0]
     if "D" in d["note"]:
         return d["note"][1].split("/")[0] + ("/nested" if d["mfd"] < 0 and "/frame" in d["note"][1] else "")
     return "clean-host"
@@ -818,7 +865,7 @@ def generate(seed, tier):
             if label.startswith("skip") or not applicable(label, doc, opts):
                 continue
             for style in (("lines", "min") if (hand and not is_nested) else ("lines",)):
-                if style == "min" and (label.startswith(("missing_endquote", "overlength", "unclosed_text", "eof_unclosed")) or "text_key" in label):
+                if style == "min" and (label.startswith(("missing_endquote", "overlength", "unclosed_text", "eof_unclosed", "defect_in_comment", "defects_in_comment")) or "text_key" in label):
                     continue
                 rq = case_request(label, planted, result, code, opts, alt, dia, r, style, mfd)
                 if rq is not None:
